@@ -17,6 +17,10 @@ hier    hierarchies beyond two levels: chain A <- B <- C with a mixin M (class C
         class U (own method absent / value / NotImplemented) or an int on either side.  Binary methods return
         ('<defining class>.<method>', self.v); comparison methods return (self.v == 1) == <polarity of the defining
         class>.  quick: operators + - < ==; thorough: all 13 binary and 6 comparison operators.
+chain   chained comparisons: every pair of operators from < <= > >= == != is / is not / in over every triple of ints
+        from {0, 1, 2} (operands passed as arguments); the same with objects whose six ordering methods compare a
+        stored value, and with the middle operand an object; chains of three operators over every quadruple
+        (quick: operators < >= ==; thorough: all six ordering operators).
 aug     x <<= 2, x ^= 2, x @= 2, x += 2 with __iop__ in {-, returns self, returns a new object} x __op__ in {-, V}.
 
 CPython raising TypeError (unsupported operand) is "no claim".
@@ -262,12 +266,43 @@ def hier_cases(binops, cmpops):
                            defs + f"def case__S__():\n    return {hc}__S__(1) {sym} 2\n", "case__S__()")
 
 
+CHAIN_OPS = ("<", "<=", ">", ">=", "==", "!=", "is", "is not", "in")
+ORDER_OPS = ("<", "<=", ">", ">=", "==", "!=")
+_OPN = {"<": "lt", "<=": "le", ">": "gt", ">=": "ge", "==": "eq", "!=": "ne", "is": "is", "is not": "isnot", "in": "in"}
+_VCLS = "class V__S__:\n    def __init__(self, v):\n        self.v = v\n" + "".join(
+    f"    def __{_OPN[o]}__(self, o):\n        return self.v {o} (o.v if isinstance(o, V__S__) else o)\n" for o in ORDER_OPS
+)
+
+
+def chain_cases(thorough):
+    vals = (0, 1, 2)
+    for o1 in CHAIN_OPS:
+        for o2 in CHAIN_OPS:
+            body = f"def case__S__(a, b, c):\n    return a {o1} b {o2} c\n"
+            for t in itertools.product(vals, repeat=3):
+                yield case(f"ops/chain/int/{_OPN[o1]}.{_OPN[o2]}/{t[0]}{t[1]}{t[2]}", body, f"case__S__({t[0]}, {t[1]}, {t[2]})")
+    for o1 in ORDER_OPS:
+        for o2 in ORDER_OPS:
+            for t in itertools.product(vals, repeat=3):
+                k = f"{_OPN[o1]}.{_OPN[o2]}/{t[0]}{t[1]}{t[2]}"
+                yield case(f"ops/chain/obj/{k}", _VCLS + f"def case__S__(a, b, c):\n    return V__S__(a) {o1} V__S__(b) {o2} V__S__(c)\n",
+                           f"case__S__({t[0]}, {t[1]}, {t[2]})")
+                yield case(f"ops/chain/mid/{k}", _VCLS + f"def case__S__(a, b, c):\n    return a {o1} V__S__(b) {o2} c\n",
+                           f"case__S__({t[0]}, {t[1]}, {t[2]})")
+    ops3 = ORDER_OPS if thorough else ("<", ">=", "==")
+    for o1, o2, o3 in itertools.product(ops3, repeat=3):
+        body = f"def case__S__(a, b, c, d):\n    return a {o1} b {o2} c {o3} d\n"
+        for t in itertools.product(vals, repeat=4):
+            yield case(f"ops/chain/int4/{_OPN[o1]}.{_OPN[o2]}.{_OPN[o3]}/{''.join(map(str, t))}", body, f"case__S__({', '.join(map(str, t))})")
+
+
 def cases(thorough):
     yield from binary_cases()
     yield from compare_cases()
     yield from unary_cases()
     yield from truth_cases()
     yield from aug_cases()
+    yield from chain_cases(thorough)
     if thorough:
         yield from hier_cases(set(BINOPS), set(CMPOPS))
     else:
